@@ -288,6 +288,10 @@ func (p *C02) Gen(seed uint64, i int, tier string) *scen.Scenario {
 	sc.Setup = append(sc.Setup, scen.Op{Op: "set_debug_mode", B: []bool{false}}, scen.Op{Op: "get_debug_mode"}, scen.Op{Op: "snap"})
 	var calls []scen.Op
 	n := r.Range(4, 20)
+	bigBase := 0 // > 0: an episode with records far beyond the initial buffer size
+	if r.Chance(1, 10) {
+		bigBase = scen.Pick(r, []int{1100, 4200, 9000, 17000, 34000, 70000, 140000})
+	}
 	for k := 0; k < n; k++ {
 		sev := scen.Pick(r, c02Sevs)
 		t := tok(k + 1)
@@ -340,6 +344,19 @@ func (p *C02) Gen(seed uint64, i int, tier string) *scen.Scenario {
 			op.Msg = "line1 " + t + "\nline2\nline3" + scen.Pick(r, []string{"", "\n"})
 		default:
 			op.Msg = "m" + t
+		}
+		if bigBase > 0 && op.Kind == "" && r.Chance(1, 2) {
+			// a long record; within one episode the sizes mostly grow inside one power-of-two class,
+			// sometimes they shrink or jump to the next class
+			op.J = int64(bigBase)
+			switch r.Intn(6) {
+			case 0:
+				bigBase = bigBase * 2 / 3
+			case 1:
+				bigBase = bigBase*2 + r.Range(1, 500)
+			default:
+				bigBase += r.Range(500, bigBase/3)
+			}
 		}
 		nargs := 0
 		switch r.Intn(5) {
